@@ -1,4 +1,5 @@
 """C18 — opening an older database rebuilds derived tables exactly; reopening is a no-op."""
+import re
 from . import mir, tables
 from .mir import trace, origin_summary, callee_matches
 from .common import find_calls, one_call, call_outcomes, follow_value, comparisons, TRUTH, flip, Ensures
@@ -24,14 +25,27 @@ EP = "<store::fs::StoreInstance<'a> as ranger::Store<sync::SignedEntry>>::entry_
 
 def r1(ctx):
     f = ctx.facts
-    b = f.body("store::fs::Store::new_impl")
-    ctx.touch(b)
-    bi, t = one_call(b, r"migrations::run_migrations$")
-    aggs = [(x, s) for x, si, s in b.statements() if s["k"] == "assign" and s["r"][0] == "agg" and s["r"][1][0] == "adt" and s["r"][1][1] == "store::fs::Store"]
-    oc = call_outcomes(b, bi)
-    e = oc.get("Ok")
-    ok = bool(aggs) and bool(e) and all(b.edge_dominates(e[0], e[1], x) for x, _ in aggs)
-    ctx.check(ok, "C18.R1", b.path, "migrations-before-store-exists", "every construction of Store is dominated by the Ok edge of run_migrations", t["sp"])
+    # every way to obtain a Store passes the migrations: each public constructor *ensures* run_migrations (interprocedural
+    # "success implies the guard succeeded": in the constructor itself or in the helper that builds the Store for it, on every
+    # path - also the one that first converts a redb 2.x file), and nothing else builds a Store
+    ens_rm = Ensures(f, r"migrations::run_migrations$")
+    ctors = [p for p, b0 in f.bodies.items() if re.match(r"^store::fs::Store::(persistent|memory)$", p)]
+    if len(ctors) < 2:
+        raise mir.AnchorMissing("expected the public constructors Store::persistent and Store::memory, found %s" % ctors)
+    for p in sorted(ctors):
+        if p.endswith("::memory"):
+            continue        # a fresh in-memory database cannot be an older one: whether it passes the migrations is immaterial
+        b = f.body(p)
+        ctx.touch(b)
+        ok, why = ens_rm.ensures_body(b)
+        ctx.check(ok, "C18.R1", p, "migrations-before-store-exists", "every success return of %s is behind a successful run_migrations (%s)" % (p.split("::")[-1], why), b.sp)
+    builders = sorted({(b0.rec.get("root") or b0.path) for b0 in f.bodies.values() for x, si, s0 in b0.statements()
+                       if s0["k"] == "assign" and s0["r"][0] == "agg" and s0["r"][1][0] == "adt" and s0["r"][1][1] == "store::fs::Store" and not b0.rec.get("derived")})
+    reach = set()
+    for p in ctors:
+        reach |= {x.path for x in f.scope(p, prefix="store::fs::")} | {p}
+    cg_ok = all(bp in reach or any(bp == c for c in ctors) or f.only_reached_from(bp, set(ctors)) for bp in builders)
+    ctx.check(bool(builders) and cg_ok, "C18.R1", "store::fs::Store", "store-built-only-by-the-constructors", "Store values are built in %s, reachable only from %s" % (builders, sorted(ctors)), None)
     rm = f.body(M + "run_migrations")
     ctx.touch(rm)
     order = []
@@ -57,7 +71,7 @@ def r1(ctx):
         e1.is_guard_call = (lambda t, depth, mig=mig: callee_matches(t, r"migrations::run_migration$") and any(d and mig in d for d in t["f"].get("tdefs", [])))
         ok1, why1 = e1.ensures_body(rm)
         ctx.check(ok1, "C18.R1", rm.path, "every-success-return-passed[%s]" % mig, why1, rm.sp)
-    ctx.floor("C18.R1", 7)
+    ctx.floor("C18.R1", 8)
 
 
 def _components(body, op, names):
